@@ -84,15 +84,9 @@ impl UnitIdsOutput {
                 let routes = router.match_request(&request);
                 let mut action = Action::from_routes_rule(routes, &request, Some(&mut unit_trace));
 
-                let action_status_code = action.get_status_code(0, Some(&mut unit_trace));
-                let (_, backend_status_code) = if action_status_code != 0 {
-                    (action_status_code, action_status_code)
-                } else {
-                    // We call the backend and get a response code
-                    let backend_status_code = example.response_status_code.unwrap_or(200);
-                    let final_status_code = action.get_status_code(backend_status_code, Some(&mut unit_trace));
-                    (final_status_code, backend_status_code)
-                };
+                // the shared two-phase decision, as the explain and impact analyses use it (an example status of 0 means "not given")
+                let example_status_code = example.response_status_code.unwrap_or(0);
+                let (_, backend_status_code) = action.get_final_status_code_with_fallback(example_status_code, 200, &mut unit_trace);
 
                 action.filter_headers(Vec::new(), backend_status_code, false, Some(&mut unit_trace));
 
